@@ -1,6 +1,8 @@
 """C06 - the LibYAML back-end is a drop-in replacement (binding-side sibling clauses + grammar oracle for the Python side)."""
 import sys
 
+from sa import crosslist as XL
+from sa import rules_r6b as R6B
 from sa import report, rules_sibling as RSB, rules_read as RD, rules_opts as RO, rules_order as RO2
 from sa import rules_state as RSTATE
 from sa import rules_extra as RX
@@ -41,6 +43,13 @@ def run(ctx, repo):
     ctx.call(RSTATE.r_directives_reset, repo)
     # the LibYAML composer hands the event's (plain, quoted) flags to resolve() unchanged; so must the Python composer
     ctx.call(RLANG.r_resolve_index, repo)
+    ctx.call(R6B.r_uri_escapes_joined, repo)
+    ctx.call(RX.r_analyze_special, repo)
+    ctx.call(RO.r_ascii_unless_unicode, repo)
+    XL.emit_readable(ctx, repo)
+    XL.scan_reference(ctx, repo)
+    XL.reader_positions(ctx, repo)
+    XL.compose_identity(ctx, repo)
 
 
 if __name__ == '__main__':
